@@ -19,6 +19,7 @@
 -/
 import CffVerif.Extracted.Types
 import CffVerif.Extracted.Facts
+import CffVerif.Sched.HB
 
 namespace Tie
 open Extracted
@@ -1176,6 +1177,42 @@ theorem own_emitter :
     emitterAdapter.all (fun mk =>
       !hasPrefix mk "unknown" && !hasPrefix mk "nilFor:" && mk != "noTicker" &&
       (!hasPrefix mk "emitOn:" || mk == "emitOn:Scheduler.run")) = true := by
+  decide
+
+-- ==== C12: the model's access table covers the source ====
+
+/-- The accesses of the source the model has to account for: reads and writes of the fields of
+    `ScheduledJob` and `Scheduler`, and `Enqueue`'s initialisation of a job (`Config.New`'s
+    initialisation of the `Scheduler` precedes the `go` statements that start the model's goroutines
+    and is not an action of the model). -/
+def c12Relevant (a : FieldAccess) : Bool :=
+  (a.struct == "ScheduledJob" || a.struct == "Scheduler") && a.field != "*" &&
+  (a.kind == "read" || a.kind == "write" || (a.kind == "init" && a.struct == "ScheduledJob"))
+
+set_option maxRecDepth 100000 in
+/-- **C12.** Every read / write of a `ScheduledJob` / `Scheduler` field in the source, by every
+    thread its function may run on, is an access of the model (`Sched.accesses`, enumerated as
+    `Sched.accessTable`), for which `Sched.C12_race_free` — conflicting accesses are ordered by
+    happens-before — is proved.  (Only this direction is an obligation: an access the model has and
+    the source has not makes the theorem stronger than needed, never wrong.) -/
+theorem c12_access_table_covers_source :
+    (fieldAccesses.filter c12Relevant).all (fun a =>
+      !(threadsOf a.fn).isEmpty &&
+      (threadsOf a.fn).all (fun t =>
+        Sched.accessTable.contains
+          (a.struct ++ "." ++ a.field, t, if a.kind == "read" then "read" else "write"))) = true := by
+  decide
+
+-- ==== C20: names generated by -genmode=modifier ====
+
+/-- **C20 C13.** The `_cff<Kind>` prefixes of the functions `-genmode=modifier` generates: none is a
+    prefix of another (so `Text.modName` is injective across kinds as well as within one:
+    `Text.C20_modname_injective`, `Text.modname_kinds_of_not_prefix`), there is no unrecognised entry,
+    and the kinds the naming fixture of the text differential exercises are among them. -/
+theorem modifier_kinds_prefix_free :
+    ((nm modifierKinds).all fun k => (nm modifierKinds).all fun k' => k == k' || !(k.isPrefixOf k')) &&
+    noUnknown modifierKinds &&
+    ((nm ["Flow", "Task", "Results", "Params", "Concurrency"]).all fun k => (nm modifierKinds).contains k) = true := by
   decide
 
 end Tie
